@@ -127,6 +127,20 @@ func newWorld(r *rand.Rand, o worldOpts) *World {
 		w.Recipes[2] = w.Recipes[0] + "\u00e9"
 		w.Unknown = append(w.Unknown, w.Recipes[0]+"e\u0301")
 	}
+	var twins []string
+	if r.Intn(8) == 0 {
+		// two different names that collide under a common 32-bit hash: as basic elements of the book (when
+		// there is room) or as foods the book does not define; logged on different days further down
+		tw := gen.HashTwins[r.Intn(len(gen.HashTwins))]
+		if !inList(all, tw[0]) && !inList(all, tw[1]) {
+			twins = tw[:]
+			if nbas >= 3 && r.Intn(2) == 0 {
+				w.Basics[nbas-1], w.Basics[nbas-2] = tw[0], tw[1]
+			} else {
+				w.Unknown = append(w.Unknown, tw[0], tw[1])
+			}
+		}
+	}
 	concat := nrec >= 2 && r.Intn(6) == 0
 	if concat {
 		// two recipes named N and N+"1": with quantities 15 and 5 the strings N+"15" coincide
@@ -154,6 +168,12 @@ func newWorld(r *rand.Rand, o worldOpts) *World {
 		w.Log[d].Ents = append(w.Log[d].Ents, gen.Ent{Name: w.Recipes[0], Val: gen.N("15")})
 		d2 := r.Intn(len(w.Log))
 		w.Log[d2].Ents = append(w.Log[d2].Ents, gen.Ent{Name: w.Recipes[1], Val: gen.N("5")})
+	}
+	if twins != nil && len(w.Log) > 0 {
+		d1 := r.Intn(len(w.Log))
+		d2 := d1 + r.Intn(len(w.Log)-d1)
+		w.Log[d1].Ents = append(w.Log[d1].Ents, gen.Ent{Name: twins[0], Val: gen.N("2")})
+		w.Log[d2].Ents = append(w.Log[d2].Ents, gen.Ent{Name: twins[1], Val: gen.N("3")})
 	}
 	w.Res = model.Resolve(w.Book)
 	w.Abs = model.AbsPaths(w.Book)
